@@ -57,6 +57,30 @@ fn deviations(ch: &Chooser) -> String {
     if v.is_empty() { "none".into() } else { v.join("+") }
 }
 
+/// Attribution for k >= 2: a failing execution with several deviations is re-run with each
+/// deviation alone (the other deviation choices zeroed, free choices kept); if one of them already
+/// fails, its fingerprint is used, so that a class names the deviation that matters and not an
+/// innocent companion.
+pub fn attributed(ch: &Chooser, body: impl Fn(&Chooser) -> Outcome) -> Outcome {
+    let mut r = body(ch);
+    if let Err(v) = &mut r {
+        let trace = ch.trace();
+        let devs: Vec<usize> =
+            trace.iter().enumerate().filter(|(_, p)| p.class == vmc::Class::Dev && p.taken != 0).map(|(i, _)| i).collect();
+        if devs.len() >= 2 {
+            for &keep in &devs {
+                let choices: Vec<u32> =
+                    trace.iter().enumerate().map(|(i, p)| if p.class == vmc::Class::Dev && i != keep { 0 } else { p.taken }).collect();
+                if let Err(v1) = body(&Chooser::replaying(&choices)) {
+                    v.fingerprint = v1.fingerprint;
+                    break;
+                }
+            }
+        }
+    }
+    r
+}
+
 /// A failed step of a pipe: (stage, class-level symptom, detail).
 struct Fail {
     stage: &'static str,
@@ -373,6 +397,12 @@ pub fn aln_grammar(ch: &Chooser, cfg: &AlnCfg) -> Outcome {
     let models = [na.clone(), model.clone(), nb.clone()];
     let bufs: Vec<RecordBuf> = [&na, &g.rec, &nb].iter().map(|m| build_record(m)).collect();
     let which = ["neighbour-before", "deviated", "neighbour-after"];
+    let cigar_class = match model.cigar.len() {
+        0 => "none",
+        1..=65534 => "ops<65535",
+        65535 => "ops=65535",
+        _ => "ops>65535",
+    };
 
     let decoded = |api: usize, to: &str| {
         format!(
@@ -388,7 +418,10 @@ pub fn aln_grammar(ch: &Chooser, cfg: &AlnCfg) -> Outcome {
     ch.desc(|| decoded(0, "<every target>"));
     let viol = |stage: &str, api: usize, to: &str, rest: &str, exp: String, obs: String| -> Outcome {
         Err(Violation::new(
-            format!("family=alignment stage=grammar-{stage} from={} api={} to={to} dev={dev} {rest}", from.name, APIS[api]),
+            format!(
+                "family=alignment stage=grammar-{stage} from={} api={} to={to} dev={dev} cigar={cigar_class} {rest}",
+                from.name, APIS[api]
+            ),
             decoded(api, to),
             exp,
             obs,
